@@ -24,7 +24,8 @@ Scripts ==
   { <<Op("W", 5)>>, <<Op("RB", 0), Op("W", 5)>>, <<Op("WH", 201), Op("W", 3), Op("W", 5)>>, <<Op("W", 8)>>, <<Op("W", 3), Op("FL", 0), Op("W", 9)>>,
     <<Op("FL", 0), Op("W", 4)>>, <<Op("RF", 12)>>, <<Op("WH", 404)>>, <<Op("WH", 204)>>, <<Op("WH", 304)>>,
     <<Op("RB", 0), Op("WH", 200), Op("RF", 8), Op("FL", 0)>>, <<Op("W", 4), Op("W", 4), Op("W", 4)>>, <<Op("RB", 0)>>,
-    <<Op("WH", 500), Op("W", 20)>> }
+    <<Op("WH", 500), Op("W", 20)>>,
+    <<Op("WH", 103), Op("WH", 200), Op("W", 3)>>, <<Op("WH", 103), Op("WH", 404)>> }     \* an informational status is not the response status
 
 Cases == [ deny : 0..4,                                    \* phase of an unconditional deny (0 = none)
            reqAccess : BOOLEAN, reqAction : {"Reject", "ProcessPartial"},
@@ -36,7 +37,7 @@ Cases == [ deny : 0..4,                                    \* phase of an uncond
 \* ---- handler script ----
 RECURSIVE Written(_)
 Written(s) == IF s = << >> THEN 0 ELSE (IF Head(s).o \in {"W", "RF"} THEN Head(s).n ELSE 0) + Written(Tail(s))
-ExplicitStatus(s) == LET ws == {i \in 1..Len(s) : s[i].o = "WH"} IN
+ExplicitStatus(s) == LET ws == {i \in 1..Len(s) : s[i].o = "WH" /\ s[i].n >= 200} IN
                      IF ws = {} THEN 200
                      ELSE LET f == CHOOSE i \in ws : \A j \in ws : i <= j IN
                           \* a WriteHeader after the first output is superfluous
